@@ -4,7 +4,7 @@
     statements quantify over arbitrary byte strings. *)
 From Coq Require Import List NArith Bool String.
 From Verif Require Import Lib.Path Lib.Utf8 Caco.Names Caco.NamesProofs Caco.Match Caco.MatchProofs Caco.FileSet Caco.FileSetProofs
-  Caco.NamesGen Gen.CacoConsts.
+  Caco.NamesGenDefs Caco.NamesGen Gen.CacoConsts.
 Import ListNotations.
 Local Open Scope N_scope.
 
@@ -53,6 +53,21 @@ Theorem C12_rel_name_inside_package : forall p f,
   exists rest, rel_segs (make_rel_path p f) = rel_segs p ++ rest /\ forallb goodb rest = true.
 Proof. exact make_rel_path_inside. Qed.
 Print Assumptions C12_rel_name_inside_package.
+
+(** Every package path the loader uses is such a resolved name — the
+    repo-map keys of the WORKSPACE file through [makeRelPath("", key)], the
+    sub-build directories through [makeRelPath(p, d)] (the resolver-call table
+    of [C12_source_as_modelled]) — hence clean, whatever "..", "./" or "//" the
+    key carries; the premise of [C12_rel_name_inside_package] is met. *)
+Theorem C12_package_paths_are_clean : forall key p d,
+  clean_relb (make_rel_path [] key) = true /\
+  rel_segs (make_rel_path [] key) = rsegs key /\
+  clean_relb (make_rel_path p d) = true.
+Proof.
+  exact (fun key p d => conj (make_rel_path_clean [] key)
+           (conj (make_rel_path_segs [] key) (make_rel_path_clean p d))).
+Qed.
+Print Assumptions C12_package_paths_are_clean.
 
 (** [makePath]: absolute names resolve from the workspace root, others from
     the package; clean either way. *)
@@ -285,6 +300,8 @@ Example C12_nonvacuous_names :
   make_rel_path [] [] = [] /\
   clean_relb (bs "pkg/sub") = true /\
   dir_file_path (bs "/w/src") [make_rel_path (bs "a") (bs "../..")] = bs "/w/src/a" /\
+  make_rel_path [] (bs "../../outside") = bs "outside" /\
+  make_rel_path (bs "../vendor/lib") (bs "x") = bs "vendor/lib/x" /\
   nsegs (bs "../s/./t/..") = [bs ".."; bs "s"].
 Proof. vm_compute. repeat split. Qed.
 
